@@ -4,7 +4,9 @@
 delete the copy, and record which check caught it.
 
 usage: tools/mut.py [--tier quick] [--only ID[,ID]] [--jobs N]
-Catalogue: mutants/c*.json  [{id, file, old, new, props, note}]
+Catalogue: mutants/c*.json  [{id, file, old, new, props, note}] or
+           [{id, revert: <fix commit of /repo>, props, note}] (c00-reverts.json,
+           written by tools/mkreverts.py from known_findings.json)
 Results:   mutants/results.json
 """
 
@@ -29,7 +31,19 @@ def run_one(m, tier, seed):
         subprocess.check_call(['rsync', '-a', '--exclude', '.git',
                                '--exclude', 'tests', '--exclude', 'docs',
                                '/repo/', tmp + '/'])
-        for e in m.get('edits') or [m]:
+        if m.get('revert'):
+            # undo one fix: commit of /repo in the scratch copy
+            diff = subprocess.run(
+                ['git', '-C', '/repo', 'diff', m['revert'] + '^',
+                 m['revert'], '--', 'asyncssh'], capture_output=True,
+                text=True, check=True).stdout
+            ap = subprocess.run(['git', 'apply', '-R', '-'], input=diff,
+                                cwd=tmp, capture_output=True, text=True)
+            if ap.returncode:
+                out['error'] = 'revert does not apply: ' + ap.stderr[:200]
+                return out
+
+        for e in m.get('edits') or ([m] if 'file' in m else []):
             path = os.path.join(tmp, e['file'])
             src = open(path).read()
 
